@@ -4,6 +4,7 @@ Executed for real: get_diagonal_indices, LDAWrapper.update / solve / _do_solve_1
 The wrapped solver is a counting contract oracle (op(A) x = b, pre-image candidates).
 """
 import itertools
+from fractions import Fraction
 import numpy as np
 import z3
 
@@ -43,6 +44,8 @@ HISTS = {
     "block-indep": [("N", "blocknew")],
     "update": [("N", "new"), ("update", None), ("N", "repeat"), ("T", "new")],
     "cplx-rhs": [("N", "cplx"), ("N", "new")],
+    "cplxconst-rhs": [("N", "cplxconst"), ("N", "new")],
+    "x0": [("N", "new"), ("N", "newx0"), ("T", "newx0"), ("N", "blocknewx0")],
 }
 
 
@@ -65,6 +68,10 @@ def items(tier):
     for mclass in ("general", "symmetric", "hermitian", "complex-symmetric"):
         for zp in patterns(2, mclass):
             for hname, h in HISTS.items():
+                if hname == "cplxconst-rhs":
+                    continue
+                if hname == "x0" and (mclass != "general" and q or zp and q):
+                    continue
                 if hname == "cplx-rhs" and mclass in ("hermitian", "complex-symmetric"):
                     continue
                 if q and (hname == "cplx-rhs" or mclass == "complex-symmetric" or
@@ -73,6 +80,11 @@ def items(tier):
                 for tol in ((0,) if q else (0, "1e-7")):
                     out.append(dict(kind="history", id="n2-%s-z%s-%s-tol%s" % (mclass, "".join("%d%d" % tuple(p) for p in zp) or "none", hname, tol),
                                     n=2, mclass=mclass, zeros=zp, hist=hname, tol=tol))
+    # real matrix, complex right-hand side first, then an independent real one: NumPy's in-place casting rules are
+    # modelled (logical dtype mode), "no call fails that would succeed on a fresh wrapper"
+    for mclass in ("general", "symmetric"):
+        out.append(dict(kind="history", id="n2-%s-znone-cplx-then-real-dtype" % mclass, n=2, mclass=mclass, zeros=[],
+                        hist="cplxconst-rhs", tol=0, logical_dtype=True, timeout=400))
     # update() with a CHANGED sparsity pattern: dofs that were decoupled in the first matrix are coupled in the second
     for mclass in ("general", "symmetric"):
         for za, zb in (([[0, 1], [1, 0]], []), ([[0, 1]], [[1, 0]]), ([], [[0, 1], [1, 0]])):
@@ -177,10 +189,23 @@ def scenario(V, P, cfg):
         M = op(A, trans)
         same = [s for s in solved if s[0] == trans]
         expect_reuse = False
+        x0 = None
+        if kind in ("newx0", "blocknewx0"):
+            # an initial guess is handed to solve(); the answer may not depend on it
+            kind = kind[:-2]
+            shp0 = (n, 2) if kind == "blocknew" else (n,)
+            x0 = V.cplxs("g%d" % k, shp0) if cplxA else V.reals("g%d" % k, shp0)
         if kind in ("new", "cplx", "blocknew") or not same and kind in ("repeat", "scale", "sum", "newplus"):
             cp = cplxA or kind == "cplx"
             shp = (n, 2) if kind == "blocknew" else (n,)
             xs = V.cplxs("x%d" % k, shp) if cp else V.reals("x%d" % k, shp)
+            b = M @ xs
+            kind_eff = "new"
+        elif kind == "cplxconst":
+            # a fixed strictly complex pre-image (exact rationals): keeps the real/complex heuristics of the wrapper decidable
+            vals = [(1, 2), (Fraction(1, 2), -1), (2, Fraction(1, 4))][:n]
+            xs = np.array([C(R.of(a), R.of(b_)) for a, b_ in vals], dtype=object) if V.symbolic else \
+                np.array([complex(float(a), float(b_)) for a, b_ in vals])
             b = M @ xs
             kind_eff = "new"
         elif kind == "repeat":
@@ -222,7 +247,7 @@ def scenario(V, P, cfg):
             oracles.add_candidate(xs)
             oracles.add_candidate(wrap(np.asarray(xs)).conj())
         before = inner.n_solve
-        x = w.solve(b.copy(), trans=trans)
+        x = w.solve(b.copy(), trans=trans) if x0 is None else w.solve(b.copy(), x0=x0, trans=trans)
         called = inner.n_solve - before
         obs["x%d" % k] = x
         if np.ndim(b) == 1:
@@ -281,6 +306,9 @@ class _CountingAuto:
 
 
 def run_item(cfg, tier):
+    if cfg.get("logical_dtype"):
+        from symx.array import enable_logical_dtype
+        enable_logical_dtype(True)      # forked worker: float64 (+)= complex128 raises as in NumPy
     return symbolic_run(scenario, cfg, tier, max_paths=200, rtol=1e-5)
 
 
